@@ -188,7 +188,38 @@ func poisons(p *prng.R, m *dyn.Model, g *gen.G, db *ref.DB) []poison {
 	return out
 }
 
+// c02Concurrent borrows C17's concurrent histories (several connections writing to one
+// server under injected delays, raw monitors recording the notifications) and keeps the
+// clauses that are about all-or-nothing: a transaction answered with an error must not
+// have been notified and must not have left its rows, an acknowledged one must have been
+// notified, and the final database must satisfy the integrity rules.
+func c02Concurrent(r *ev.Run, batch int) {
+	m, err := dyn.Build(c17Schema(), nil)
+	if err != nil {
+		return
+	}
+	c17InstallHook()
+	r.SigMap = func(sig string) string {
+		for _, keep := range []string{"C17/failed-transaction-notified", "C17/failed-transaction-left-rows", "C17/acknowledged-transaction-not-notified", "C17/final-state-integrity"} {
+			if strings.HasPrefix(sig, keep) {
+				return "C02/concurrent/" + strings.TrimPrefix(sig, "C17/")
+			}
+		}
+		return ""
+	}
+	r.DropInconclusive = true
+	defer func() { r.SigMap, r.DropInconclusive = nil, false }()
+	n := r.N(1, 6)
+	for hi := 0; hi < n; hi++ {
+		p := prng.Derive(r.Seed, "C02concurrent", batch, hi)
+		r.LogCase(fmt.Sprintf("C02 concurrent history batch=%d history=%d", batch, hi))
+		r.Count("concurrent_histories", 1)
+		c17History(r, m, p, batch, 1000+hi)
+	}
+}
+
 func c02Child(r *ev.Run, batch int) {
+	defer c02Concurrent(r, batch)
 	schemas := r.N(3, 60)
 	txns := r.N(140, 600)
 	for si := 0; si < schemas; si++ {
